@@ -62,14 +62,17 @@ static void run_occupy(void) {
   mv_obs("victims=%x main on w%d", victims, mv_worker());
   mv_finish();
 }
-static int decide_cnt;
+static int decide_cnt, passed_cnt;
 static int decide(myth_thread_t th, void * u) { (void)th; (void)u; if ((decide_cnt++ & 1) == 0) { declined++; return 0; } accepted++; return 1; }
 static myth_thread_t custom_steal(int rank) {
   int nw = myth_get_num_workers(), victim = (rank + 1) % nw;
   size_t sz = 0;
   myth_thread_t seen = myth_wsapi_runqueue_peek(victim, 0, &sz);
   if (seen) peeked++;
-  return myth_wsapi_runqueue_take(victim, decide, 0);
+  myth_thread_t got = myth_wsapi_runqueue_take(victim, decide, 0);
+  /* every other stolen thread is handed on to the victim's neighbour with the thief-side pass; if the pass is refused the thief runs it itself */
+  if (got && (passed_cnt++ & 1) == 0 && nw > 2) { int to = (victim + 1) % nw; if (to != rank && myth_wsapi_runqueue_pass(to, got)) { mv_cover(3); return NULL; } }
+  return got;
 }
 static void run(int tier, int prog) {
   build(); cur = &P[tier][prog];
@@ -89,6 +92,6 @@ static void run(int tier, int prog) {
   mv_obs("main on w%d", mv_worker());
   mv_finish();
 }
-static const char * const cover_names[] = { "steal_declined", "steal_accepted", "peek_saw_thread", 0 };
-static uint64_t cover_required(int tier) { (void)tier; return 7; }
+static const char * const cover_names[] = { "steal_declined", "steal_accepted", "peek_saw_thread", "stolen_thread_passed_on", 0 };
+static uint64_t cover_required(int tier) { (void)tier; return 15; }
 mc_harness_t mc_harness = { "C02", "sched", nprogs, describe, config, run, cover_names, cover_required };
